@@ -20,7 +20,14 @@ K3  histories through the REAL main program (`MainProgram.execute([FILE])`, in p
     `run`) before and after every one of them and at the start of every phase, and the act phase
     process.  `subprocess` is a recording stand-in: what every probe would see (environment,
     timeout, current directory) is compared with a reference state machine (act set, non-act set,
-    timeout, cwd).  Also: the value of a variable coming from a program (that program is a process
+    timeout, cwd).  Every probe point also USES things that were DEFINED ONCE at the start of
+    [setup]: path symbols relative to the current directory (implicit relativity, -rel-cd, relative
+    to another symbol: "evaluated when referenced"), a program symbol (`run @ PP`) and a
+    text-source symbol whose text comes from a program (the stdin of PP): each use, before and
+    after every change of a setting and in every later phase, must see the state at the time of
+    THAT use (resolved path = current directory at that point; environment / timeout / cwd of the
+    processes started through the symbols; the text on stdin).
+    Also: the value of a variable coming from a program (that program is a process
     too); the act phase process started by each of the four kinds of actor; and, with CrossHair
     tracing ON, fixed histories with SYMBOLIC timeouts (literals K0, K1 through the real parser)
     and a SYMBOLIC initial value of the variable A in the environment Exactly is started with.
@@ -257,6 +264,34 @@ VALUE_PROGRAM_OUTPUT = 'v${A}'  # what the stand-in child `probe-value` writes t
 _OF = {ref.BOTH: '', ref.ACT: ' -of act', ref.NON_ACT: ' -of !act'}
 
 
+# Things that are DEFINED ONCE, before anything else, and USED at every probe point, i.e. before and after every change of
+# a setting: a use must see the state at the time of the use, not the state at the time of an earlier use.
+#   IMPLICIT  path relative to the current directory (default relativity of `def path`): "evaluated when it is referenced,
+#             not when it is defined" (reference manual, syntax PATH)
+#   EXPLICIT  the same with the relativity option
+#   DERIVED   path relative to the path symbol IMPLICIT
+#   PP        program with IMPLICIT as argument: run at every probe point through `run @ PP`
+#   TS        text whose source is a program with IMPLICIT as argument: the stdin of PP at every probe point (the program is
+#             a process too; the stand-in child writes its own command line, which PP must find on its stdin)
+SYMBOL_DEFS = ('def path IMPLICIT = pfile',
+               'def path EXPLICIT = -rel-cd qfile',
+               'def path DERIVED = -rel IMPLICIT sub',
+               'def program PP = % probe-via-program-symbol @[IMPLICIT]@',
+               'def text-source TS = -stdout-from % probe-via-text-source-symbol @[IMPLICIT]@')
+PATH_ARGS = ' @[IMPLICIT]@ @[EXPLICIT]@ @[DERIVED]@'
+VIA_SYMBOL = '/via-program-symbol'
+VIA_TEXT_SOURCE = 'probe-via-text-source-symbol'
+
+
+def stand_in_child_stdout(command_line: str) -> str:
+    if command_line.startswith('probe-value'):
+        return VALUE_PROGRAM_OUTPUT
+    if command_line.startswith(VIA_TEXT_SOURCE):
+        return command_line
+    return ''
+VALUE_PROGRAM = '-stdout-from $ probe-value' + PATH_ARGS
+
+
 def _forms():
     fs = [
         ('cd sub', ('cd', 'cwd', 'sub')),
@@ -274,7 +309,7 @@ def _forms():
     # the value comes from a program: the program is a process too (manual, `env`: "it will be executed in an
     # environment with the environment variables of the specified phase")
     for t in ref.TARGETS:
-        fs.append(('env%s P = -stdout-from $ probe-value' % _OF[t], ('setprog', t, 'P', VALUE_PROGRAM_OUTPUT)))
+        fs.append(('env%s P = %s' % (_OF[t], VALUE_PROGRAM), ('setprog', t, 'P', VALUE_PROGRAM_OUTPUT)))
     nprog = len(fs)
     # timeouts that are symbolic integers (literal K0 / K1 through the real parser)
     fs.append(('timeout = K0', ('timeout', 'K0')))
@@ -283,7 +318,7 @@ def _forms():
 
 
 FORMS, NBASE, NPROG = _forms()
-PRELUDE = ('dir sub/sub/sub', 'dir a/sub/sub')
+PRELUDE = SYMBOL_DEFS + ('dir sub/sub/sub', 'dir a/sub/sub')
 DIRS_IN_ACT = ('', 'sub', 'sub/sub', 'sub/sub/sub', 'a', 'a/sub', 'a/sub/sub')
 # the probes are processes started by different instructions
 PROBE_KINDS = ('$ TAG', '% TAG', 'run % TAG', '$ TAG')
@@ -303,12 +338,33 @@ def probe(phase: str, i: int) -> str:
 
 # the act phase process started by each kind of actor: ([conf] lines, [act] lines)
 ACTORS = {
-    'command-shell': ((), ('$ probe-act',)),
-    'command-system-program': ((), ('% probe-act',)),
+    'command-shell': ((), ('$ probe-act' + PATH_ARGS,)),
+    'command-system-program': ((), ('% probe-act' + PATH_ARGS,)),
     'file-interpreter': (('actor = file % probe-act',), ('act-source.txt',)),
     'source-interpreter': (('actor = source % probe-act',), ('source line',)),
 }
 FILES_IN_HOME = (('act-source.txt', 'source\n'),)
+
+
+def probe_lines(phase: str, i: int):
+    """A probe point: a process started by `$` / `%` / `run` that is given the path symbols as arguments, and a process
+    started through the program symbol."""
+    return (PROBE_KINDS[i % len(PROBE_KINDS)].replace('TAG', probe(phase, i)) + PATH_ARGS,
+            'run @ PP ' + probe(phase, i),
+            '    -stdin @[TS]@')
+
+
+def path_args(cwd: str):
+    """What the path symbols denote when referenced with `cwd` as current directory."""
+    return (cwd + '/pfile', cwd + '/qfile', cwd + '/pfile/sub')
+
+
+def probe_point(name: str, seen):
+    env, timeout, cwd = seen
+    implicit = path_args(cwd)[0]
+    return [(name, env, timeout, cwd, path_args(cwd)),
+            (VIA_TEXT_SOURCE, dict(env), timeout, cwd, (implicit,)),
+            (name + VIA_SYMBOL, dict(env), timeout, cwd, (implicit, VIA_TEXT_SOURCE + ' ' + implicit))]
 
 
 def case_text(history, actor: str = 'command-shell') -> str:
@@ -324,13 +380,13 @@ def case_text(history, actor: str = 'command-shell') -> str:
             continue
         if ph == 'setup':
             lines.extend(PRELUDE)
-        lines.append(PROBE_KINDS[0].replace('TAG', probe(ph, 0)))
+        lines.extend(probe_lines(ph, 0))
         i = 0
         for f, p in history:
             if PHASES[p] == ph:
                 i += 1
                 lines.append(FORMS[f][0])
-                lines.append(PROBE_KINDS[i % len(PROBE_KINDS)].replace('TAG', probe(ph, i)))
+                lines.extend(probe_lines(ph, i))
         lines.append('')
     return '\n'.join(lines) + '\n'
 
@@ -343,10 +399,11 @@ def expected_observations(history, initial_environ, act_dir: str, ints=None, bug
     out = []
     for ph in ALL_PHASES:
         if ph == 'act':
-            out.append(('probe-act',) + (m.seen_by_atc() if bug != 5 else m.seen_by_instruction()))
+            seen = m.seen_by_atc() if bug != 5 else m.seen_by_instruction()
+            out.append(('probe-act',) + seen + (path_args(seen[2]),))
             continue
         in_setup = ph == 'setup'
-        out.append((probe(ph, 0),) + m.seen_by_instruction())
+        out.extend(probe_point(probe(ph, 0), m.seen_by_instruction()))
         i = 0
         for f, p in history:
             if PHASES[p] != ph:
@@ -368,11 +425,11 @@ def expected_observations(history, initial_environ, act_dir: str, ints=None, bug
                 m.env_unset(eff[1], in_setup, eff[2])
             elif k == 'setprog':
                 for s_ in m.sets_changed_by(eff[1], in_setup):
-                    out.append(('probe-value', dict(s_), m.timeout, m.cwd))  # the program runs in the set being changed
+                    out.append(('probe-value', dict(s_), m.timeout, m.cwd, path_args(m.cwd)))  # the program runs in the set being changed
                 m.env_set(eff[1], in_setup, eff[2], eff[3])
             else:
                 raise ValueError(eff)
-            out.append((probe(ph, i),) + m.seen_by_instruction())
+            out.extend(probe_point(probe(ph, i), m.seen_by_instruction()))
     return out
 
 
@@ -446,7 +503,7 @@ def run_history(h, recorder=None, actor: str = 'command-shell'):
     try:
         initial = dict(os.environ)
         if recorder is None:
-            recorder = L.Recorder(stdout_of=lambda tag: VALUE_PROGRAM_OUTPUT if tag == 'probe-value' else '')
+            recorder = L.Recorder(stdout_of=stand_in_child_stdout)
         run = L.run_main_program(case_text(h, actor), recorder, FILES_IN_HOME)
     finally:
         for n, v in saved.items():
@@ -457,18 +514,24 @@ def run_history(h, recorder=None, actor: str = 'command-shell'):
     return initial, run
 
 
-def _tag(command_line: str) -> str:
-    """the probe's name: the program of the command line (interpreter actors append the source file)"""
-    return command_line.split(' ')[0]
+def observed(call, actor: str = 'command-shell'):
+    """(name of the probe, environment, timeout, current directory, arguments) of a recorded process."""
+    words = call.tag.split(' ')
+    name, args = words[0], tuple(words[1:])
+    if name == 'probe-via-program-symbol':  # `run @ PP NAME`: program of PP, arguments of PP, NAME
+        name, args = words[-1] + VIA_SYMBOL, tuple(words[1:-1]) + (call.stdin_text,)
+    elif name == 'probe-act' and actor.endswith('-interpreter'):
+        args = path_args(call.cwd)  # interpreter actors: the argument is the source file, not the path symbols
+    return name, call.env, call.timeout, call.cwd, args
 
 
-def check_run(h, initial, run, ints=None, bug: int = 0) -> bool:
+def check_run(h, initial, run, ints=None, bug: int = 0, actor: str = 'command-shell') -> bool:
     if run.exception is not None or run.rc != 0 or run.ident != 'PASS' or len(run.sandbox_roots) != 1:
         return False
     if run.environ_after != run.environ_before:  # the environment of Exactly itself is not the medium
         return False
     want = expected_observations(h, initial, run.act_dir, ints, bug)
-    got = [(_tag(c.tag), c.env, c.timeout, c.cwd) for c in run.calls]
+    got = [observed(c, actor) for c in run.calls]
     return want is not None and same_observations(got, want)
 
 
@@ -486,7 +549,7 @@ def k3_history(f0: int, p0: int, f1: int, p1: int, f2: int, p2: int) -> bool:
     h = tuple((ob.concrete_int(f, ranges[i][0], ranges[i][1] - 1), phases[i]) for i, (f, p) in enumerate(h))
     with L.untraced():
         initial, run = run_history(h, None, case.get('actor', 'command-shell'))
-        ok = check_run(h, initial, run, None, case.get('oracle_bug', 0))
+        ok = check_run(h, initial, run, None, case.get('oracle_bug', 0), case.get('actor', 'command-shell'))
     return ob.post(ok)
 
 
@@ -521,7 +584,7 @@ def k3_symbolic(t0: int, t1: int, a: str) -> bool:
     xly.install_int_placeholders([t0, t1])
     try:
         recorder = L.Recorder(inherited_environ=lambda: started_with,
-                              stdout_of=lambda tag: VALUE_PROGRAM_OUTPUT if tag == 'probe-value' else '')
+                              stdout_of=stand_in_child_stdout)
         run = L.run_main_program(case_text(h, case.get('actor', 'command-shell')), recorder, FILES_IN_HOME)
     finally:
         predefined_properties.os = real_os
@@ -658,8 +721,10 @@ def obligations(tier: str) -> List[Ob]:
     outside_k3 = ('histories in which a `cd` names a directory that does not exist (the case ends HARD_ERROR there)',
                   'that a started child really receives env= / cwd / timeout= (contract of subprocess.call)',
                   'changing directory inside a child process (OS behaviour, no code of exactly_lib involved)')
-    probes = ('a probe process (started by `$`, `%` or `run`) before and after every one of them and at the start of every phase, '
-              'and the act phase process; observed: environment, timeout, current directory')
+    probes = ('a probe point before and after every one of them and at the start of every phase (a process started by `$`, `%` or '
+              '`run` given three path symbols defined once with cwd relativity as arguments; a process started through a program '
+              'symbol defined once, its stdin a text-source symbol defined once whose program is a process too), and the act phase '
+              'process; observed: environment, timeout, current directory, the arguments (resolved paths) and the stdin text')
 
     def k3(name, case, forms_text, expect=ob.CONFIRM, timeout=1200):
         phases = case['phases']
@@ -719,10 +784,10 @@ def obligations(tier: str) -> List[Ob]:
     if tier == 'thorough':
         sym += [
             ('timeout-none-timeout', (('timeout = K0', 0), ('timeout = none', 0), ('timeout = K1', 3))),
-            ('nonact-program-timeout', (('env -of !act B = "<${A}${U}>"', 0), ('env P = -stdout-from $ probe-value', 0), ('timeout = K1', 3))),
+            ('nonact-program-timeout', (('env -of !act B = "<${A}${U}>"', 0), ('env P = ' + VALUE_PROGRAM, 0), ('timeout = K1', 3))),
             ('cd-timeout-env', (('cd sub', 0), ('timeout = K0', 0), ('env A = 1', 1))),
             ('timeouts-late', (('timeout = K0', 2), ('env -of act A = 1', 2), ('timeout = K1', 3))),
-            ('act-program', (('timeout = K1', 0), ('env -of act P = -stdout-from $ probe-value', 0), ('env unset A', 1))),
+            ('act-program', (('timeout = K1', 0), ('env -of act P = ' + VALUE_PROGRAM, 0), ('env unset A', 1))),
         ]
     tmax = 99 if tier == 'quick' else 9999
     for name, hist in sym:
